@@ -75,7 +75,7 @@ def shape(rng, tier="quick", allow_cyclic=True, max_rules=None):
     if "start_on_rhs" in feats:
         rules += [(rng.choice(N), (N[0], a) if rng.random() < 0.5 else (a, N[0]))]
     if "repeated_symbol" in feats:
-        rules += [(X, (Y, Y) if rng.random() < 0.6 else (Y, a, Y))]
+        rules += [(X, rng.choice([(Y, Y), (Y, Y), (Y, a, Y), (Y, Y, Y), (Y, X, Y)]))]
     if "duplicates" in feats and rules:
         rules += [rng.choice(rules)]
     if "unproductive" in feats:
@@ -134,20 +134,26 @@ def weights(rng, mode_name, rules, V):
     return _float_weights(rng, rules, V)
 
 
-def grammar(rng, mode_name, tier="quick", max_rules=None):
+def grammar(rng, mode_name, tier="quick", max_rules=None, nonrecursive=False):
     """Draw an abstract grammar for a mode.  Poly: no cyclic symbols (every
-    string has finitely many derivations and the library's fixed points stop)."""
+    string has finitely many derivations and the library's fixed points stop).
+    nonrecursive: the dependency graph is acyclic (finitely many trees)."""
     need_acyclic = mode_name == "poly"
     for _ in range(200):
         S, V, rules, feats = shape(rng, tier, allow_cyclic=not need_acyclic, max_rules=max_rules)
+        if nonrecursive:
+            idx = lambda X: int(X[1:])  # noqa
+            rules = [(h, b) for h, b in rules if all(y in V or idx(y) > idx(h) for y in b)]
+            if not rules:
+                continue
         if need_acyclic:
             rr = [(True, h, b) for h, b in rules]
-            cyc = ref.cyclic_symbols(rr, set(V))
+            cyc = ref.cyclic_symbols(rr, set(V), productive_only=False)
             if cyc:
                 rules = [(h, b) for h, b in rules
                          if not (all(y not in V for y in b) and (h in cyc or any(y in cyc for y in b)))]
                 rr = [(True, h, b) for h, b in rules]
-                if ref.cyclic_symbols(rr, set(V)) or not rules:
+                if ref.cyclic_symbols(rr, set(V), productive_only=False) or not rules:
                     continue
         ws = weights(rng, mode_name, rules, V)
         return {
